@@ -307,7 +307,7 @@ func allPatterns(seq []string, maxEmit int, yield func([]string)) {
 
 func runMachine(f lib.Flags, res *lib.Result, drv *lib.Driver) {
 	tie := res.Tie("mergeExcess-machine", "K1",
-		"the REAL mergeCollectionExcess goroutine driven through its channels one operation at a time (offer one input / take one output; a take is attempted when the model says it is enabled, the final state is read back with a sentinel input) vs the model's recv/emit machine: ALL well-formed event sequences of length <= L (quick 4, thorough 5) over 2 ids x 2 values from each of the 4 start views with ids absent/present x ALL patterns of 0..2 takes after each input (0..1 for the longest sequences: thorough length 5, quick length 4 from two of the four start views), plus random sequences of length <= 40 with random patterns (including takes while nothing is pending and seed-flagged/REPLACE inputs), plus a few BULK runs (1200-4600 distinct ids get an ADD each while next to nothing is taken, then a quarter to a half of them is updated / removed / re-added); compared: every taken change and the pending queue in order, all fields; non-trivial = at least two inputs; distinct = (start view, moves)")
+		"the REAL mergeCollectionExcess goroutine driven through its channels one operation at a time (offer one input / take one output; a take is attempted when the model says it is enabled, the final state is read back with a sentinel input) vs the model's recv/emit machine: ALL well-formed event sequences of length <= L (quick 4, thorough 5) over 2 ids x 2 values from each of the 4 start views with ids absent/present x ALL patterns of 0..2 takes after each input (0..1 for the longest sequences: thorough length 5, quick length 4 from two of the four start views), plus random sequences of length <= 40 with random patterns (including takes while nothing is pending and seed-flagged/REPLACE inputs), plus BULK runs (quick 1, thorough 6: 1200-4600 distinct ids get an ADD each while next to nothing is taken, then a quarter to a half of them is updated / removed / re-added); compared: every taken change and the pending queue in order, all fields; non-trivial = at least two inputs; distinct = (start view, moves)")
 	mon := res.Monitor("mergeExcess-view", "on the same runs, independent of the model: every offered input is accepted (never blocks, latency recorded); delivered changes (emitted then pending) are each well formed at the subscriber's view (old values chain per id); they fold to the view of everything received; the last delivered change of an id carries its most recent value; at most one pending change per id; the goroutine terminates on close; non-trivial = something was merged away")
 	starts := []map[string]string{{}, {"a": "x"}, {"b": "y"}, {"a": "x", "b": "x"}}
 	var maxRecv time.Duration
@@ -405,7 +405,7 @@ func runMachine(f lib.Flags, res *lib.Result, drv *lib.Driver) {
 	}
 	// at scale: far more DISTINCT ids pending at once than any small case has (the buffer is one change per id
 	// that has not been emitted, however many ids that is: recv is total at every size)
-	for i, n := 0, f.N(2, 6); i < n; i++ {
+	for i, n := 0, f.N(1, 6); i < n; i++ {
 		push(genBulkMachineCase(r, f.N(1200, 4000)+r.Intn(600)))
 	}
 	process(buf)
